@@ -42,16 +42,35 @@ def make_case(seed, mode):
         plan["sbatch_fail"] = sorted({rng.randint(1, 4) for _ in range(rng.choice([1, 1, 2]))})
     elif mode == "squeuefail":
         plan["actions"] = [{"at": at, "do": "squeuefail"}]
+    elif mode == "local":
+        for g in sc["groups"]:
+            g["local"] = True
+            g["time"] = False
+        plan["local"] = True
     elif mode == "write":
         plan["write_error"] = [rng.choice(WRITE_SITES), rng.randint(2, 7)]
         plan["break_stale"] = rng.random() < 0.5
     return sc, plan
 
 
+DIRECTED = {
+    # C12 known finding: a node dies inside the locked append of a result row; markers never broken
+    "node_dies_holding_result_lock": (
+        {"jobs": [{"name": "a", "deps": [], "group": "g", "est": 1, "rc": 0}, {"name": "b", "deps": [], "group": "g", "est": 1, "rc": 0}],
+         "groups": [{"name": "g", "size": 2, "time": False, "try": True, "nproc": 1}], "max_nodes": 1, "hooks": {}, "node_cpus": 2},
+        {"strategy": "nodes_first", "break_stale": False,
+         "actions": [{"when": {"k": "acquire", "lock_startswith": "results_batch", "node": True, "n": 2}, "do": "kill", "who": "event_actor"}]}),
+}
+
+
 def _run_case(arg):
     seed, mode = arg
     from harness import vcluster  # noqa (installs the stand-ins in this worker)
-    sc, plan = make_case(seed, mode)
+    if mode in DIRECTED:
+        import copy
+        sc, plan = copy.deepcopy(DIRECTED[mode])
+    else:
+        sc, plan = make_case(seed, mode)
     try:
         r = sysrun.run_plan(sc, seed, plan)
         r["error"] = None
@@ -88,7 +107,7 @@ def final_oracles(sc, plan, r):
     tr = r["trace"]
     by = {j["name"]: j for j in sc["jobs"]}
     ff = fault_free(plan, r)
-    complete = bool(r["status"].get("complete"))
+    complete = bool(r["status"].get("complete")) or (bool(plan.get("local")) and r["final"] is not None)
     rows = {}
     for ev in tr:
         if ev["k"] == "append" and ev.get("ok") and ev.get("batch") is not None:
@@ -149,12 +168,32 @@ def final_oracles(sc, plan, r):
             if tot != len(by):
                 probs.append(("C20", "tally-does-not-add-up", f"summary {summary} for {len(by)} jobs"))
     # C12: with only batch-level faults the documented recovery reaches completion
-    only_batch_faults = not plan.get("write_error") and all(a["do"] in ("timeout",) or (a["do"] == "kill" and a.get("who") == "node")
+    # (a node killed while it acts as submitter - role held or cluster lock held - falls under C11)
+    only_batch_faults = not plan.get("write_error") and all(a["do"] in ("timeout",) or (a["do"] == "kill" and a.get("who") in ("node", "event_actor"))
                                                             for a in plan.get("actions", []))
-    if only_batch_faults and (plan.get("actions") or plan.get("sbatch_fail")) and not complete:
-        lockheld = any(ev["k"] == "deadlock_timeout" or ev["k"] == "lock_timeout" for ev in tr)
-        sig = "node-died-holding-lock" if lockheld else "no-completion-after-batch-failure"
-        probs.append(("C12", sig, f"submission not complete after batch failures; excs {r['excs'][:2]}"))
+    holder, held = None, {}
+    submitter_killed, result_lock_dead = False, None
+    for ev in tr:
+        k = ev["k"]
+        if k == "create" or (k == "load" and ev.get("promoted")):
+            holder = ev["p"]
+        elif k == "demote" and ev.get("ok"):
+            holder = None
+        elif k == "acquire":
+            held[ev["p"]] = ev["lock"]
+        elif k == "release":
+            held.pop(ev["p"], None)
+        elif k == "kill":
+            for q in ev["pids"]:
+                if q == holder or held.get(q, "").startswith("cluster_config"):
+                    submitter_killed = True
+                elif q in held:
+                    result_lock_dead = held[q]
+    if only_batch_faults and (plan.get("actions") or plan.get("sbatch_fail")) and not complete and not submitter_killed:
+        if result_lock_dead and not plan.get("break_stale"):
+            probs.append(("C12", "node-died-holding-result-lock", f"a node died while holding {result_lock_dead}; with lock markers never broken the collection of results is wedged and the submission cannot complete"))
+        else:
+            probs.append(("C12", "no-completion-after-batch-failure", f"submission not complete after batch failures; excs {r['excs'][:2]}"))
     # C14: every active batch asked to be canceled; nothing submitted afterwards is in py_monitors
     for i, ev in enumerate(tr):
         if ev["k"] == "mark_canceled":
@@ -201,16 +240,17 @@ PROP_OF_MONITOR = {"c01_ok": "C01", "c02_ok": "C02", "c05_ok": "C05", "c06_ok": 
                    "c16_ok": "C16", "c06p_ok": "C06"}
 
 
-def system_phase(chk, pid, modes, n_quick, n_thorough, also=(), known_signatures=()):
+def system_phase(chk, pid, modes, n_quick, n_thorough, also=(), directed=()):
     """modes: dict mode -> weight.  Violations are reported for property `pid` and those in `also`
     (e.g. C11 reports the C01/C02 monitors on its fault traces under its own id)."""
     n = n_thorough if chk.tier == "thorough" else n_quick
     names = list(modes)
     weights = [modes[m] for m in names]
-    cases = [(chk.seed * 100000 + i, chk.rng.choices(names, weights)[0]) for i in range(n)]
+    cases = [(0, d) for d in directed] + [(chk.seed * 100000 + i, chk.rng.choices(names, weights)[0]) for i in range(n)]
     # the corpus (minimized earlier failures) runs first
     results = run_cases(cases)
-    items = [(sc, r["trace"]) for _, _, sc, _, r in results]
+    # local mode (no scheduler, no batches) is outside the system model: only the Python oracles judge it
+    items = [(sc, (r["trace"] if not plan.get("local") else [])) for _, _, sc, plan, r in results]
     try:
         acc = sysrun.accept_traces(items, name=f"sys_{pid}")
     except core.BuildError as e:
@@ -267,6 +307,20 @@ def system_phase(chk, pid, modes, n_quick, n_thorough, also=(), known_signatures
     chk.oblige(f"all {len(items)} impl traces accepted by System.step (coqc vm_compute)", rejected == 0,
                f"{rejected} rejected")
     chk.notes.setdefault("input_distribution", {})["system"] = dist
+    sysrule = ("system cases = generated scenarios (2-8 jobs, random DAG incl. blocked-before-blocker listing, flags, exit codes, "
+               "1-3 groups with count/time batching, try-add-blocked, nproc, max-nodes, hooks) run through the REAL jade code in the "
+               "virtual cluster under a seeded schedule strategy and the mode's plan (plain / cancel / kill / timeout / sbatchfail / "
+               "squeuefail / write error / hooks / cyclic / local); each impl trace is evaluated by System.step and the Coq monitors "
+               "(coqc vm_compute) and by Python oracles; non-trivial = at least 2 sbatch calls or more than 20 scheduling choices; "
+               "distinct by (seed, mode)")
+    if "rule" not in chk.coverage and "rule" not in chk.notes:
+        chk.notes["rule"] = sysrule
+    else:
+        chk.notes["system_rule"] = sysrule
+    if not chk.assumptions:
+        chk.assumptions += ["A-FS: exclusive create / rename / unlink / small appends on the shared filesystem are atomic",
+                            "A-HPC: squeue answers are snapshots; sbatch returns a fresh id; the scheduler runs the script it was given",
+                            "the virtual cluster's stand-ins (soft lock, sbatch/squeue/scancel, virtual job processes) behave like the real boundaries"]
     chk.notes["traces_validated_against_impl"] = chk.notes.get("traces_validated_against_impl", 0) + len(items)
     if results:
         sd, md, sc, plan, r = results[0]
